@@ -791,3 +791,27 @@ pub fn child_run(run: &Run, args: &[&str]) -> Option<J> {
     }
     Some(j)
 }
+
+/// Parallel map preserving order (used by the breadth-first explorations to expand a frontier).
+pub fn par_map<T: Sync, R: Send>(items: &[T], f: impl Fn(&T) -> R + Sync) -> Vec<R> {
+    let nw = num_workers().min(items.len().max(1));
+    let chunk = (items.len() + nw - 1) / nw.max(1);
+    if items.is_empty() {
+        return Vec::new();
+    }
+    let mut out: Vec<Vec<R>> = Vec::new();
+    std::thread::scope(|sc| {
+        let mut hs = Vec::new();
+        for part in items.chunks(chunk.max(1)) {
+            let f = &f;
+            hs.push(sc.spawn(move || part.iter().map(|x| f(x)).collect::<Vec<R>>()));
+        }
+        for h in hs {
+            match h.join() {
+                Ok(v) => out.push(v),
+                Err(e) => std::panic::resume_unwind(e),
+            }
+        }
+    });
+    out.into_iter().flatten().collect()
+}
